@@ -7,7 +7,7 @@ import copy
 import os
 import shutil
 
-from common import REPO, run_tlc, subdir, validate_traces
+from common import REPO, MachineryError, run_tlc, subdir, validate_traces
 import fe_world
 import sse_common as sc
 
@@ -140,10 +140,60 @@ def alias(tier_):
     return out
 
 
-def lost_echo(fx):
-    """ClientImpl.tla: the client object as commands.py uses it, incl. upload echoes that never arrive (the persisted flags
-    lag behind the server until the next connecting command re-synchronises them)."""
+def _run_lost(a):
+    """one history of client commands on the real client / server; symbols ending in "!" lose the server's echo"""
     import c11
+    k, h, fx = a
+    d = os.path.join(subdir("growth"), "lost%d" % k)
+    run = c11.Run({"cfg": fx["cfg"], "db": fx["db"], "bad": [fx["cfg"]]}, d)
+    run.w.cproxy.cap = 0.4            # a lost echo is noticed after 0.4 s instead of 60 s
+    import frontend.server.services.service as sservice
+    real_send = sservice.send_message
+    drop = {"on": False}
+    err = ""
+
+    def send(ws, sid, typ, content, **kw):
+        if drop["on"] and typ in ("config", "upload_edb"):
+            drop["on"] = False
+            return asyncio.get_running_loop().create_future()      # never sent
+        return real_send(ws, sid, typ, content, **kw)
+    sservice.send_message = send
+
+    async def go():
+        await run.w.start_server()
+        for sym in h:
+            if sym == "restart":
+                before = run.snapshot()
+                await run.w.restart_server()
+                run.ev.append({"op": "restart", "out": "ok", "correct": False, "raw": "", "o": run.observe(before)})
+                continue
+            drop["on"] = sym.endswith("!")
+            await run.step(sym.rstrip("!"))
+            drop["on"] = False
+            e = run.ev[-1]
+            if sym.endswith("!") and e["raw"].startswith("raised:TimeoutError"):
+                e["out"] = "noecho"
+        await run.w.shutdown()
+    loop = asyncio.new_event_loop()
+    loop.set_exception_handler(lambda l, c: None)
+    try:
+        loop.run_until_complete(asyncio.wait_for(go(), 180))
+    except Exception as ex:
+        err = repr(ex)
+    finally:
+        loop.close()
+        sservice.send_message = real_send
+        shutil.rmtree(d, ignore_errors=True)
+    return {"ev": run.ev, "err": err}
+
+
+def lost_echo(fx, tier_="quick"):
+    """ClientImpl.tla: the client object as commands.py uses it, incl. upload echoes that never arrive (the persisted flags
+    lag behind the server until the next connecting command re-synchronises them) and server restarts in between.
+    Binding: four hand-written scenarios + the histories with at least one lost echo that TLC emits from MC_ClientImpl
+    (quick: a seeded sample of depth 5; thorough: all of depth 5 and a sample of depth 6)."""
+    import random
+    from common import parse_printed, tla_value, pmap, seed
     out = {"spec": "spec/fe/ClientImpl.tla", "observations": []}
     r = run_tlc("ClientImpl", "CONSTANT MaxLost = 2\nSPECIFICATION Spec\nINVARIANT DiskNotAhead\nINVARIANT LagOnlyAfterLoss\nINVARIANT Searchable\n"
                               "PROPERTY RefinesClientSM\nCHECK_DEADLOCK FALSE\n", workers=2, heap="1g", name="clientimpl")
@@ -151,47 +201,37 @@ def lost_echo(fx):
     scen = [["create", "genkey", "encrypt", "upconfig!", "upconfig", "upindex", "search"],
             ["create", "genkey", "encrypt", "upconfig", "upindex!", "search", "upindex"],
             ["create", "genkey", "upconfig!", "encrypt", "upindex!", "search", "search"],
-            ["create", "genkey", "encrypt", "upconfig", "upindex", "search"]]
-    traces = []
-    for k, h in enumerate(scen):
-        d = os.path.join(subdir("growth"), "lost%d" % k)
-        run = c11.Run({"cfg": fx["cfg"], "db": fx["db"], "bad": [fx["cfg"]]}, d)
-        run.w.cproxy.cap = 0.4            # a lost echo is noticed after 0.4 s instead of 60 s
-        import frontend.server.services.service as sservice
-        real_send = sservice.send_message
-        drop = {"on": False}
-
-        def send(ws, sid, typ, content, **kw):
-            if drop["on"] and typ in ("config", "upload_edb"):
-                drop["on"] = False
-                return asyncio.get_running_loop().create_future()      # never sent
-            return real_send(ws, sid, typ, content, **kw)
-        sservice.send_message = send
-
-        async def go():
-            await run.w.start_server()
-            for sym in h:
-                if sym.endswith("!"):
-                    drop["on"] = True
-                await run.step(sym.rstrip("!"))
-                e = run.ev[-1]
-                if sym.endswith("!") and e["raw"].startswith("raised:TimeoutError"):
-                    e["out"] = "noecho"
-            await run.w.shutdown()
-        loop = asyncio.new_event_loop()
-        loop.set_exception_handler(lambda l, c: None)
-        try:
-            loop.run_until_complete(asyncio.wait_for(go(), 120))
-        except Exception as ex:
-            out["observations"].append("lost-echo scenario %d did not complete: %r" % (k, ex))
-        finally:
-            loop.close()
-            sservice.send_message = real_send
-            shutil.rmtree(d, ignore_errors=True)
-        traces.append({"tid": "lost%d" % k, "ev": run.ev})
-    v, _ = validate_traces("Trace_ClientImpl", traces, consts="CONSTANT MaxLost = 2\n", name="clientimpl")
-    out["scenarios"] = [{"history": h, "verdict": v["lost%d" % k]} for k, h in enumerate(scen)]
-    for k, h in enumerate(scen):
-        if not v["lost%d" % k]["ok"]:
-            out["observations"].append("DRIFT: client run %s is not a behaviour of ClientImpl (step %d %s)" % (h, v["lost%d" % k]["step"], v["lost%d" % k]["clause"]))
+            ["create", "genkey", "encrypt", "upconfig", "upindex", "search"],
+            ["create", "genkey", "encrypt", "upconfig!", "restart", "upindex", "restart", "search"]]
+    nscen = len(scen)
+    rnd = random.Random(seed() * 7919 + 11)
+    gen = {}
+    for D, take in ((5, 160 if tier_ == "quick" else None), (6, 0 if tier_ == "quick" else 900)):
+        if take == 0:
+            continue
+        g = run_tlc("MC_ClientImpl", "CONSTANTS MaxLost = 2\nD = %d\nSPECIFICATION MCSpec\nINVARIANT Emit\nCHECK_DEADLOCK FALSE\n" % D,
+                    workers=4, heap="2g", name="mcclientimpl%d" % D)
+        hs = sorted({tuple(tla_value(x)[1]) for x in parse_printed(g.out, "H")})
+        if not hs:
+            raise MachineryError("MC_ClientImpl emitted no history at depth %d" % D)
+        gen[D] = {"emitted": len(hs), "states": g.distinct}
+        if take is not None and len(hs) > take:
+            hs = rnd.sample(hs, take)
+        gen[D]["replayed"] = len(hs)
+        scen += [list(h) for h in hs]
+    res = pmap(_run_lost, [(k, h, fx) for k, h in enumerate(scen)], nproc=12)
+    traces = [{"tid": "lost%d" % k, "ev": x["ev"]} for k, x in enumerate(res)]
+    for k, x in enumerate(res):
+        if x["err"]:
+            out["observations"].append("lost-echo history %s did not complete: %s" % (scen[k], x["err"]))
+    v, agg = validate_traces("Trace_ClientImpl", traces, consts="CONSTANT MaxLost = 2\n", name="clientimpl")
+    out["scenarios"] = [{"history": h, "verdict": v["lost%d" % k]} for k, h in enumerate(scen[:nscen])]
+    bad = [(h, v["lost%d" % k]) for k, h in enumerate(scen) if not v["lost%d" % k]["ok"]]
+    out["generated_histories"] = {"by_depth": gen, "replayed": len(scen) - nscen, "accepted": len(scen) - len(bad),
+                                  "with_restart": sum(1 for h in scen if "restart" in h),
+                                  "lost_echoes_replayed": sum(sum(1 for s_ in h if s_.endswith("!")) for h in scen),
+                                  "trace_validation_states": agg.get("distinct")}
+    for h, x in bad[:8]:
+        out["observations"].append("DRIFT: client run %s is not a behaviour of ClientImpl (step %d %s)" % (h, x["step"], x["clause"]))
+    out["drift_count"] = len(bad)
     return out
